@@ -850,7 +850,7 @@ HEADER = ("From Coq Require Import ZArith List Bool.\nImport ListNotations.\n"
 
 def run(run):
     nj, ns, njs, npy = (1500, 900, 500, 3000) if run.thorough else \
-        (100, 64, 32, 300)
+        (80, 50, 24, 300)
     cases = load_corpus()
     run.count("corpus", len(cases))
     cases += [gen_join_case(run.rng, run.thorough) for _ in range(nj)]
